@@ -130,7 +130,7 @@ Local Open Scope S_scope.
 (* ---- one row ---- *)
 Definition sden (r : row) : S := fold_right (fun e acc => sabs (snd e) * sabs (snd e) + acc) s0 r.
 Definition snum (i : nat) (r : row) (a : S) : S :=
-  fold_left (fun a e => if Nat.eqb (fst e) i then a + snd e else a) r a.
+  fold_left (fun a e => if Nat.eqb (fst e) i then a + sadj (snd e) else a) r a.
 
 Lemma den_fold (r : row) (a : S) :
   fold_left (fun dn e => let nv := sabs (snd e) in dn + nv * nv) r a = a + sden r.
@@ -139,7 +139,7 @@ Proof. revert a; induction r as [|e r IH]; intro a; simpl; [ring|]. rewrite IH. 
 Lemma spai0_pair_fold (i : nat) (r : row) (a d : S) :
   fold_left (fun (nd : S * S) e =>
         let nv := sabs (snd e) in
-        (if Nat.eqb (fst e) i then fst nd + snd e else fst nd, snd nd + nv * nv)) r (a, d)
+        (if Nat.eqb (fst e) i then fst nd + sadj (snd e) else fst nd, snd nd + nv * nv)) r (a, d)
   = (snum i r a, d + sden r).
 Proof.
   unfold snum. revert a d; induction r as [|e r IH]; intros a d; simpl.
